@@ -40,7 +40,7 @@ _real_datetime_str = wpull.util.datetime_str
 P = 'C06'
 BUDGETS = {'C06': (45, 900, 10)}
 LEVELS = {'C06': 'fault_enumeration'}
-PROBES = {'C06': ['numbered_files', 'failed_rollover_before_the_append', 'first_record_of_file', 'compressed', 'uncompressed', 'multi_write_append', 'error_at_journal', 'error_at_archive_open',
+PROBES = {'C06': ['numbered_files', 'failed_rollover_before_the_append', 'restart_with_journal_of_meta_file', 'first_record_of_file', 'compressed', 'uncompressed', 'multi_write_append', 'error_at_journal', 'error_at_archive_open',
                   'error_at_archive_write', 'error_at_archive_close', 'error_at_unlink', 'torn_error', 'short_write',
                   'kill_points', 'kill_torn_points', 'kill_with_journal', 'restart_refused', 'real_kill_crosscheck', 'archive_name_with_glob_characters', 'second_run_close']}
 INFO = {'C06': {
@@ -316,6 +316,7 @@ def run(tape, prop, tier):
             r.probes['multi_write_append'] += 1
         r.log('append performs %d operations: %s' % (nops, ' '.join('%s:%s' % (o[1], o[2].replace(arch_name, 'ARCH').replace('ARCH-wpullinc', 'JOURNAL')) for o in oplog)))
 
+        meta_variant = tape.chance(1, 3, 'restart.meta_variant')
         # ---- kill clause (enumerated)
         for k, kind, name, where, snap in kills:
             r.probes['kill_points' if where in ('before', 'after-last-op') else 'kill_torn_points'] += 1
@@ -357,9 +358,16 @@ def run(tape, prop, tier):
                 # a new run must refuse to start while the journal exists
                 d2 = tempfile.mkdtemp(prefix='wv-c06r-', dir=base)
                 try:
+                    # with numbered files the run also writes '<prefix>-meta.warc[.gz]' (at close): one time in three the killed append
+                    # is presented as one to that file (same bytes, the names of the -meta file and of its journal)
+                    as_meta = bool(max_size) and arch_name.startswith(stem + '-0') and meta_variant
                     for n2, b2 in snap.items():
+                        if as_meta and n2 in (arch_name, journal_name):
+                            n2 = stem + '-meta' + n2[len(stem) + 6:]
                         with open(os.path.join(d2, n2), 'wb') as fh:
                             fh.write(b2)
+                    if as_meta:
+                        r.probes['restart_with_journal_of_meta_file'] += 1
                     try:
                         WARCRecorder(os.path.join(d2, stem), params=WARCRecorderParams(
                             compress=compress, temp_dir=tmpdir, log=False, digests=digests, cdx=False, appending=True, max_size=max_size))
